@@ -11,13 +11,14 @@ abbrev Killers := Array (Move × Move)
 
 def Killers.empty : Killers := Array.replicate Gen.killerMovesMaxPly (Move.zero, Move.zero)
 
-/-- slot of the killer table used for game ply `ply` (Go: `killerMoves[ply]`; a negative or too large
-    index panics) -/
+/-- `killerSlot(ply)`: `int(uint16(ply)) % killerMovesMaxPly` -/
+def killerIdx (ply : Int) : Nat := (ply % 65536).toNat % Gen.killerMovesMaxPly
+
+/-- slot of the killer table used for game ply `ply` (Go: `killerMoves[killerSlot(ply)]`) -/
 def killerSlot (kt : Killers) (ply : Int) : M (Move × Move) :=
-  if ply < 0 then throw (.index "killerMoves" ply) else
-  match kt[ply.toNat]? with
+  match kt[killerIdx ply]? with
   | some k => pure k
-  | none => throw (.index "killerMoves" ply)
+  | none => throw (.index "killerMoves" (killerIdx ply))
 
 def probeKiller (kt : Killers) (mov : Move) (ply : Int) : M Int := do
   let k ← killerSlot kt ply
